@@ -61,5 +61,13 @@ pub fn run(ctx: &mut Ctx) {
             let text = wf::spell(&r, st);
             check_spelling(ctx, &r, &text, &format!("style#{k}"));
         }
+        // a few recipes behind one VERY long token (a comment, or a comment-only line, of more than 2^16 bytes): offsets and
+        // lengths kept in narrow integers would wrap there
+        if i < 4 && r.front.is_none() {
+            let plain = wf::spell(&r, &Style::plain());
+            let long = match i % 2 { 0 => format!("[- {} -]\n", "x".repeat(70_000)), _ => format!("-- {}\n\n", "é".repeat(40_000)) };
+            check_spelling(ctx, &r, &format!("{long}{plain}"), "behind-a-very-long-token");
+            ctx.count("recipe:behind-a-very-long-token");
+        }
     }
 }
